@@ -22,7 +22,7 @@ MANIFEST_ENTRY = {
     "text": "Proved: all alphabetic literal tokens of token.rs carry ignore(case) (table regenerated each run); after the terminator "
             "insertion every END_IF is followed by a ';' before the next significant token whether or not one was written, and the "
             "inserted token changes nothing else. The claim that the parsed library is invariant under every respelling is a theorem "
-            "only on the expression scope of C01's parser proof; for the whole grammar it is decided by search: each generated unit "
+            "on the expression scope of C01's parser proof (C08_expression_respelling); for the whole grammar it is decided by search: each generated unit "
             "(syntactic generator and valid-by-construction generator) is written in several random spellings and the libraries are "
             "compared with Rust's == (which ignores positions and identifier case) together with the analysis verdict and codes.",
     "note": "Trusted: Coq kernel, translator (token table), harness op respell. Known findings: a comment ending in '**)' is a lexical "
